@@ -170,3 +170,130 @@ func VerifHarness_FuzzLiteral() {
 	errors.VerifAssert("variant-has-the-same-outcome", o1.class == o2.class)
 	errors.VerifAssert("variant-produces-the-same-output", o1.out == o2.out)
 }
+
+// VerifHarness_FuzzVariantChains (C20): the passes of the transformer are chained without re-analysis, so every
+// variant of a statement is itself rewritten by the next pass. For a loop exit (break / continue / return) inside a
+// loop, every variant of every variant (both chosen by selectors: the whole variant lists are enumerated, the random
+// draws inside a rewrite take their defaults) must still leave exactly that loop: the variant program is printed,
+// re-analysed, accepted and prints what the original prints.
+func VerifHarness_FuzzVariantChains() {
+	exit := errors.VerifNdIntRange("exit", 0, 2)
+	exitTxt := []string{"break;", "continue;", "return n;"}[exit]
+	errors.VerifTag("exit", exitTxt)
+	code := "fn run() -> int {\n  let n = 0;\n  let guard = 0;\n  loop {\n    guard += 1;\n    if guard > 8 { println(\"runaway\"); return 0 - 1; }\n    n += 1;\n    if n > 3 { " + exitTxt + " }\n    guard += 0;\n"
+	if exit == 1 {
+		code = "fn run() -> int {\n  let n = 0;\n  let guard = 0;\n  while n < 4 {\n    guard += 1;\n    if guard > 8 { println(\"runaway\"); return 0 - 1; }\n    n += 1;\n    if n > 1 { " + exitTxt + " }\n    println(\"first\");\n"
+	}
+	code += "  }\n  return n;\n}\nfn main() {\n  println(run());\n}\n"
+	an := verifAnalyze(code, nil, nil, true)
+	if an.hasError {
+		errors.VerifTag("diag", an.describe())
+		errors.VerifAssert("accepted", false)
+		return
+	}
+	mod := an.modules[verifFile]
+	// locate the exit statement: run() -> loop/while body -> last `if` (or the one before the print) -> then block
+	fi := -1
+	for i, f := range mod.Functions {
+		if f.Ident.Ident() == "run" {
+			fi = i
+		}
+	}
+	if fi < 0 {
+		errors.VerifInconclusive("function not found")
+	}
+	fn := mod.Functions[fi]
+	var body *ast.AnalyzedBlock
+	loopIdx := 2
+	switch l := fn.Body.Statements[loopIdx].(type) {
+	case ast.AnalyzedLoopStatement:
+		b := l.Body
+		body = &b
+	case ast.AnalyzedWhileStatement:
+		b := l.Body
+		body = &b
+	default:
+		errors.VerifInconclusive("loop not found")
+	}
+	ifIdx := 3
+	es, ok := body.Statements[ifIdx].(ast.AnalyzedExpressionStatement)
+	if !ok {
+		errors.VerifInconclusive("if statement not found")
+	}
+	ifx, ok := es.Expression.(ast.AnalyzedIfExpression)
+	if !ok || len(ifx.ThenBlock.Statements) != 1 {
+		errors.VerifInconclusive("if expression not found")
+	}
+	exitStmt := ifx.ThenBlock.Statements[0]
+	origText := an.modules[verifFile].String()
+	var chosen ast.AnalyzedStatement
+	panicked, msg := errors.VerifPanics(func() {
+		v1s := fuzzer.VerifStmtVariants(errors.VerifRandSource(), exitStmt)
+		v1 := v1s[errors.VerifNdIntRange("variant1", 0, len(v1s)-1)].(ast.AnalyzedStatement)
+		v2s := fuzzer.VerifStmtVariants(errors.VerifRandSource(), v1)
+		chosen = v2s[errors.VerifNdIntRange("variant2", 0, len(v2s)-1)].(ast.AnalyzedStatement)
+	})
+	if panicked {
+		errors.VerifTag("panic", errors.VerifNorm(msg))
+		errors.VerifTag("site", errors.VerifPanicSite())
+	}
+	errors.VerifAssert("transformer-never-crashes-on-an-accepted-program", !panicked)
+	if panicked {
+		return
+	}
+	errors.VerifAssert("the-transformer-leaves-its-input-tree-as-it-was", an.modules[verifFile].String() == origText)
+	// rebuild the tree around the chosen variant (copies: the analysed tree of the original stays as it is)
+	thenBlock := ifx.ThenBlock
+	thenBlock.Statements = []ast.AnalyzedStatement{chosen}
+	ifx.ThenBlock = thenBlock
+	es.Expression = ifx
+	newBodyStmts := append([]ast.AnalyzedStatement{}, body.Statements...)
+	newBodyStmts[ifIdx] = es
+	newBody := *body
+	newBody.Statements = newBodyStmts
+	fnStmts := append([]ast.AnalyzedStatement{}, fn.Body.Statements...)
+	switch l := fn.Body.Statements[loopIdx].(type) {
+	case ast.AnalyzedLoopStatement:
+		l.Body = newBody
+		fnStmts[loopIdx] = l
+	case ast.AnalyzedWhileStatement:
+		l.Body = newBody
+		fnStmts[loopIdx] = l
+	}
+	fn2 := fn
+	fn2.Body.Statements = fnStmts
+	mod2 := mod
+	mod2.Functions = append([]ast.AnalyzedFunctionDefinition{}, mod.Functions...)
+	mod2.Functions[fi] = fn2
+	printed := mod2.String()
+	if an.modules[verifFile].String() != origText {
+		errors.VerifInconclusive("harness error: the splice changed the original tree")
+	}
+	verifDebug("variant", printed)
+	an2 := verifAnalyze(printed, nil, nil, true)
+	if an2.hasError {
+		errors.VerifTag("diag", an2.describe())
+		errors.VerifTag("__variant", printed)
+	}
+	errors.VerifAssert("variant-is-accepted", !an2.hasError)
+	if an2.hasError {
+		return
+	}
+	// (the original is a fixed, sound program: any crash below is the variant's)
+	var o1, o2 verifOutcome
+	p, _ := errors.VerifPanics(func() { o1 = verifRunVM(an, nil, nil, verifLimits, newVerifCtx()) })
+	if p {
+		errors.VerifReached("vm-panicked-skipped")
+		return
+	}
+	p2, m2 := errors.VerifPanics(func() { o2 = verifRunVM(an2, nil, nil, verifLimits, newVerifCtx()) })
+	if p2 {
+		errors.VerifTag("panic", errors.VerifNorm(m2))
+		errors.VerifAssert("variant-has-the-same-outcome", false)
+		return
+	}
+	errors.VerifReached("ran")
+	errors.VerifTag("got", errors.VerifNorm(o2.out))
+	errors.VerifAssert("variant-has-the-same-outcome", o1.class == o2.class)
+	errors.VerifAssert("variant-produces-the-same-output", o1.out == o2.out)
+}
